@@ -70,6 +70,13 @@ Mutate == /\ WithMutations /\ pc = "ser" /\ out.r = "ok"
 Next == Serialize \/ Native \/ NotifyOp \/ Deserialize \/ Mutate
 Halt == FALSE /\ UNCHANGED vars      \* row export only (initial states)
 
+(* limit rows (sizes at MAX-1, MAX, MAX+1): the row is carried in `out`, the verdict is a function of the row *)
+InitLimits == /\ heap = [c \in Cells |-> [kind |-> "arr", slots |-> <<>>]]
+              /\ pc = "limit"
+              /\ out \in LimitRows
+\* whatever is serialized can be built; the specified length of a serialized value is within the limit
+LimitSane == pc = "limit" => LET v == LimitVerdict(out) IN (v.ser => v.build) /\ (v.ser => v.len <= MaxItemBytes)
+
 -----------------------------------------------------------------------------
 (* Properties (C14 as stated; they hold for the design, CycleCheckFirstOnly = FALSE) *)
 DetectorSound == pc = "built" => (Detect(heap, 1, Pick0) <=> (Cyclic(heap, 1) \/ TooDeep(heap, 1)))
@@ -100,4 +107,5 @@ HeapRow == [cells |-> heap,
 MutRow == LET d == Decode(out.bytes) IN [mut |-> out.r, bytes |-> out.bytes, ok |-> d.ok, tree |-> d.t, used |-> d.pos - 1]
 RowOut == /\ (pc = "built") => PrintT(<<"ROW", ToJson(HeapRow)>>)
           /\ (pc = "mut") => PrintT(<<"ROW", ToJson(MutRow)>>)
+          /\ (pc = "limit") => PrintT(<<"ROW", ToJson([limit |-> out, verdict |-> LimitVerdict(out)])>>)
 =============================================================================
